@@ -5,6 +5,8 @@
      (seeded/<ID>-n/, where meta.json names this check) is applied to a scratch copy of the CURRENT tree; the quick rules must
      report a violation whose key matches the expectation.  A control whose anchor text is not present in the current tree is
      recorded as not applicable; a control that applies and does not fire is a SELFTEST-FAIL (exit 3, not a VIOLATION).
+  3. negative controls: the behaviour-preserving patches written for this property (benign/<ID>-n/) on which the check was silent when
+     they were packaged must stay silent; an alarm on one of them is a SELFTEST-FAIL as well.
 All scratch copies, their fact caches and build output live under one mkdtemp directory that is removed at the end."""
 import json, os, re, shutil, subprocess, sys, tempfile
 from concurrent.futures import ThreadPoolExecutor
@@ -54,12 +56,32 @@ def _control(pid, ctl, repo, tmp):
         rc, keys, stats, tail = _inner(pid, {'ASD_REPO': root, 'ASD_FACTS_BASE': os.path.join(S, 'facts')}, os.path.join(S, 'ev'))
         if rc == 2:
             return {'control': ctl['name'], 'result': 'not-applicable', 'why': 'the mutated tree does not compile'}
+        if ctl.get('negative'):
+            if rc == 0:
+                return {'control': ctl['name'], 'result': 'silent'}
+            return {'control': ctl['name'], 'result': 'FALSE-ALARM', 'rc': rc, 'keys': sorted(keys)[:5], 'tail': tail[-600:]}
         hit = sorted(k for k in keys if re.search(ctl.get('expect', '.'), k))
         if rc == 1 and hit:
             return {'control': ctl['name'], 'result': 'fired', 'keys': hit[:3]}
         return {'control': ctl['name'], 'result': 'MISSED', 'rc': rc, 'keys': sorted(keys)[:5], 'tail': tail[-600:]}
     finally:
         shutil.rmtree(S, ignore_errors=True)
+
+
+def negative_controls_for(pid):
+    """behaviour-preserving patches written for this property (benign/<ID>-n/) on which this check was silent when they were packaged: it must
+    stay silent.  Patches on which the check is known to alarm (documented limits, meta.silent false) are not controls."""
+    out = []
+    bd = os.path.join(VERIF, 'benign')
+    if os.path.isdir(bd):
+        for d in sorted(os.listdir(bd)):
+            mp = os.path.join(bd, d, 'meta.json')
+            if d.split('-')[0] != pid or not os.path.exists(mp):
+                continue
+            meta = json.load(open(mp))
+            if meta.get('applies_to_current_head', True) and pid not in meta.get('fired', {}):
+                out.append({'name': 'benign:' + d, 'patch': os.path.join(bd, d, 'patch.diff'), 'negative': True})
+    return out
 
 
 def controls_for(pid):
@@ -108,23 +130,29 @@ def prepare(pid, ctx):
                 for k in only:
                     extra_viol.append((cfg, k))
         # ---- 2. controls ----
-        ctls = controls_for(pid)
+        ctls = controls_for(pid) + negative_controls_for(pid)
         with ThreadPoolExecutor(max_workers=4) as ex:
             res = list(ex.map(lambda c: _control(pid, c, repo, tmp), ctls))
         for r in res:
             if r['result'] == 'MISSED':
                 failed = True
                 print('SELFTEST: control %s applied but the check did not report it (rc=%s keys=%s)' % (r['control'], r.get('rc'), r.get('keys')))
+            if r['result'] == 'FALSE-ALARM':
+                failed = True
+                print('SELFTEST: behaviour-preserving control %s raised an alarm (rc=%s keys=%s)' % (r['control'], r.get('rc'), r.get('keys')))
         framework.THOROUGH = {
             'configurations': cfgs,
             'controls': res,
             'controls_fired': sum(1 for r in res if r['result'] == 'fired'),
             'controls_not_applicable': sum(1 for r in res if r['result'] == 'not-applicable'),
             'controls_missed': sum(1 for r in res if r['result'] == 'MISSED'),
+            'negative_controls_silent': sum(1 for r in res if r['result'] == 'silent'),
+            'negative_controls_false_alarm': sum(1 for r in res if r['result'] == 'FALSE-ALARM'),
             'extra_violations': extra_viol,
         }
-        print('thorough: configurations %s; controls fired=%d n/a=%d missed=%d' % (
-            {k: v['exit'] for k, v in cfgs.items()}, framework.THOROUGH['controls_fired'], framework.THOROUGH['controls_not_applicable'], framework.THOROUGH['controls_missed']))
+        print('thorough: configurations %s; controls fired=%d n/a=%d missed=%d; behaviour-preserving controls silent=%d false-alarm=%d' % (
+            {k: v['exit'] for k, v in cfgs.items()}, framework.THOROUGH['controls_fired'], framework.THOROUGH['controls_not_applicable'], framework.THOROUGH['controls_missed'],
+            framework.THOROUGH['negative_controls_silent'], framework.THOROUGH['negative_controls_false_alarm']))
     finally:
         shutil.rmtree(tmp, ignore_errors=True)
     return failed
